@@ -22,35 +22,35 @@ def kChoices : Str := "pyglove.generators.geno.Choices".toList
 def kFloat : Str := "pyglove.generators.geno.Float".toList
 def kCustom : Str := "pyglove.generators.geno.CustomDecisionPoint".toList
 
-def fAny (n : Str) (d : Option Tree) : Field := ⟨n, .any, true, d, false⟩
+def fAny (n : Str) (noneable : Bool) (d : Option Tree) : Field := ⟨n, .any, noneable, d, false⟩
 
 def spaceFields : List Field :=
-  [fAny "location".toList (some (.leaf (.str []))), fAny "hints".toList (some (.leaf .none)),
-   ⟨"elements".toList, .list, false, some (.list []), false⟩,
+  [fAny "location".toList false (some (.leaf (.str []))), fAny "hints".toList true (some (.leaf .none)),
+   fAny "elements".toList false (some (.list [])),
    ⟨"index".toList, .int, true, some (.leaf .none), false⟩]
 
 def choicesFields : List Field :=
-  [fAny "location".toList (some (.leaf (.str []))), fAny "hints".toList (some (.leaf .none)),
+  [fAny "location".toList false (some (.leaf (.str []))), fAny "hints".toList true (some (.leaf .none)),
    ⟨"name".toList, .str, true, some (.leaf .none), false⟩,
    ⟨"num_choices".toList, .int, false, some (.leaf (.int 1)), false⟩,
-   ⟨"candidates".toList, .list, false, none, false⟩,
-   fAny "literal_values".toList (some (.leaf .none)),
+   fAny "candidates".toList false none,
+   fAny "literal_values".toList true (some (.leaf .none)),
    ⟨"distinct".toList, .bool, false, some (.leaf (.bool true)), false⟩,
    ⟨"sorted".toList, .bool, false, some (.leaf (.bool false)), false⟩,
    ⟨"subchoice_index".toList, .int, true, some (.leaf .none), false⟩]
 
 def floatFields : List Field :=
-  [fAny "location".toList (some (.leaf (.str []))), fAny "hints".toList (some (.leaf .none)),
+  [fAny "location".toList false (some (.leaf (.str []))), fAny "hints".toList true (some (.leaf .none)),
    ⟨"name".toList, .str, true, some (.leaf .none), false⟩,
-   fAny "min_value".toList none, fAny "max_value".toList none,
-   fAny "scale".toList (some (.leaf .none))]
+   fAny "min_value".toList false none, fAny "max_value".toList false none,
+   fAny "scale".toList true (some (.leaf .none))]
 
 def customFields : List Field :=
-  [fAny "location".toList (some (.leaf (.str []))), fAny "hints".toList (some (.leaf .none)),
+  [fAny "location".toList false (some (.leaf (.str []))), fAny "hints".toList true (some (.leaf .none)),
    ⟨"name".toList, .str, true, some (.leaf .none), false⟩,
-   fAny "hyper_type".toList (some (.leaf .none)),
-   fAny "next_dna_fn".toList (some (.leaf .none)),
-   fAny "random_dna_fn".toList (some (.leaf .none))]
+   ⟨"hyper_type".toList, .str, true, some (.leaf .none), false⟩,
+   fAny "next_dna_fn".toList true (some (.leaf .none)),
+   fAny "random_dna_fn".toList true (some (.leaf .none))]
 
 /-- The schemas of the four DNASpec classes, field by field in declaration order. -/
 def genoEnv : ClassEnv :=
